@@ -819,9 +819,9 @@ BINARY(andq,pand,0xdb)
 BINARY(andnq,pandn,0xdf)
 BINARY(orq,por,0xeb)
 BINARY(xorq,pxor,0xef)
-BINARY(cmpgtsq,pcmpgtq,0x3837)
 
 #ifndef MMX
+BINARY(cmpgtsq,pcmpgtq,0x3837)
 BINARY(maxsb,pmaxsb,0x383c)
 BINARY(minsb,pminsb,0x3838)
 BINARY(maxuw,pmaxuw,0x383e)
@@ -3485,9 +3485,9 @@ orc_compiler_sse_register_rules (OrcTarget *target)
   rule_set = orc_rule_set_new (orc_opcode_set_get("sys"), target,
       ORC_TARGET_SSE_SSE4_2);
 
+#ifndef MMX
   REG(cmpgtsq);
 
-#ifndef MMX
   /* SSE 4.1 + SSE 4.2: convsssql uses blendvpd (4.1) and pcmpgtq (4.2) */
   rule_set = orc_rule_set_new (orc_opcode_set_get("sys"), target,
       ORC_TARGET_SSE_SSE4_1 | ORC_TARGET_SSE_SSE4_2);
